@@ -27,19 +27,25 @@ structure ZeroChargeInput (i : Inp K) : Prop where
   supplies : (∀ m, 0 ≤ at' i.milk m) ∧ (∀ m, 0 ≤ at' i.greenhouse m) ∧ (∀ m, 0 ≤ at' i.fish m) ∧
              (∀ m, 0 ≤ at' i.scp m) ∧ (∀ m, 0 ≤ at' i.cs m) ∧ (∀ m, 0 ≤ at' i.slaughtered m) ∧
              (∀ m, 0 ≤ at' i.maxCulled m) ∧ 0 ≤ i.meatSummed
-  limits : 0 ≤ i.limScpH ∧ 0 ≤ i.limCsH ∧ 0 ≤ i.limScpF ∧ 0 ≤ i.limCsF ∧ 0 ≤ i.limScpB ∧ 0 ≤ i.limCsB
+  /-- only the human intake limits matter: the feed and biofuel caps `lim·charge` are `lim·0`
+      whatever the sign of the limit (the four `…F/…B` conjuncts of the first version were
+      superfluous and have been dropped) -/
+  limits : 0 ≤ i.limScpH ∧ 0 ≤ i.limCsH
   population : 0 ≤ i.pop ∧ 0 ≤ i.kcalsMonthly
 
-/-- feasibility: eat the stock in month 0 and every harvest in the month it appears -/
+/-- feasibility: eat the stock in month 0 and every harvest in the month it appears
+    (`months` is not needed for this half; `WellFormed` is used for `wStored, wCrop < 100`,
+    `0 ≤ storedInitial`, `0 ≤ cropProd m` on the horizon) -/
 theorem zero_charge_feasible_no_seaweed (i : Inp K) (h : ZeroChargeInput i) :
     ∃ x, Feasible (buildLP i .toHumans) x :=
-  Proofs.Completion.zero_charge_feasible_no_seaweed i h
+  Proofs.Completion.zero_charge_feasible_no_seaweed i h.noSeaweed h.wf h.need h.feed0 h.biofuel0
+    h.supplies h.limits h.population
 
 /-- boundedness: the objective never exceeds month 0's supply relative to need -/
 theorem objective_bounded (i : Inp K) (h : ZeroChargeInput i) (x : Var → K) (hx : Feasible (buildLP i .toHumans) x) :
     x .objective ≤
       (i.storedInitial + at' i.cropProd 0 + at' i.milk 0 + (if i.storeBetweenYears then i.meatSummed else at' i.slaughtered 0)
         + at' i.cs 0 + at' i.scp 0 + at' i.greenhouse 0 + at' i.fish 0) / i.billionKcalsNeeded * 100 :=
-  Proofs.Completion.objective_bounded i h x hx
+  Proofs.Completion.objective_bounded i h.months h.noSeaweed h.wf h.need h.supplies x hx
 
 end Allfed.C16
